@@ -85,8 +85,13 @@ def gen_errorfree(draw):
             sup["segments"] = P.snap_segments([[s2, min(L, s2 + draw(st.integers(40, 150)))]], c["variants"][sp["chrom"]], L)
             sup["flag_extra"] = 2048
             sup.pop("clips", None)
+            if draw(st.integers(0, 2)) == 0:
+                sup["mapq"] = draw(st.sampled_from([0, 3, 19, 20, 255]))
             if sup["segments"]:
                 extra.append(sup)
+        if draw(st.integers(0, 7)) == 0:
+            # mapping qualities around the reader's threshold (20): such alignments must still be conserved
+            sp["mapq"] = draw(st.sampled_from([0, 3, 19, 20, 255]))
         if draw(st.integers(0, 5)) == 0:
             sp["bx"] = "BX%d_%d_%s" % (sp["hap"], draw(st.integers(0, 2)), sp["sample"])
     c["read_specs"] += extra
@@ -145,6 +150,9 @@ def write_phased_vcf(case, path, swap_extra=None):
                     k = ph["sets"][vi]
                     first = min(i for i, x in enumerate(ph["sets"]) if x == k)
                     sid = variants[first]["pos"] + 1
+                    if vi in case.get("missing_gt", {}).get(name, []):
+                        cols.append("./.:.")
+                        continue
                     if len(set(al)) < 2 or ph["unphased"][vi]:
                         cols.append("/".join(map(str, sorted(al))) + ":.")
                         continue
@@ -300,6 +308,7 @@ class ErrorFreePart:
             stale = any(x["spec"].get("stale") for x in rs)
             if tags and set(tags) != {"HP", "PS", "PC"} and not (set(tags) == {"HP", "PS"}):
                 ctx.violation("haplotag:partial-tags", "alignment %s carries %r" % (a.query_name, tags))
+                continue
             if sample not in targets:
                 if tags:
                     ctx.violation("haplotag:non-target-sample-tagged", "read %s of sample %s tagged %r" % (a.query_name, sample, tags))
@@ -332,7 +341,7 @@ class ErrorFreePart:
                 if stale:
                     nt = True
                     ctx.label("stale-tag-removed")
-                single = len(rs) == 1 and not rs[0]["spec"].get("flag_extra")
+                single = len(rs) == 1 and not rs[0]["spec"].get("flag_extra") and rs[0]["spec"].get("mapq", 60) >= 20
                 region_ok = o["regions"] is None
                 if single and len(sets) == 1 and region_ok and not rs[0]["spec"].get("bx"):
                     ctx.violation("haplotag:untagged-but-informative", "single-segment primary read %s covers phased heterozygous variants of exactly one set %r but is untagged" % (a.query_name, sorted(sets)))
@@ -361,7 +370,7 @@ class ErrorFreePart:
                         continue
                     mine = rs is not None and "hap" in rs[0] and rs[0]["sample"] == s and rs[0]["chrom"] == cname and ta.get("PS") == sid
                     if mine:
-                        if set(ta) != set(tb) or tb.get("PS") != sid or ta.get("PC") != tb.get("PC") or {ta["HP"], tb["HP"]} != {1, 2}:
+                        if set(ta) != set(tb) or tb.get("PS") != sid or ta.get("PC") != tb.get("PC") or {ta.get("HP"), tb.get("HP")} != {1, 2}:
                             ctx.violation("haplotag:relabel", "read %s in swapped set %d: tags %r -> %r" % (a.query_name, sid, ta, tb))
                     elif ta != tb:
                         ctx.violation("haplotag:relabel", "read %s outside the swapped set: tags %r -> %r" % (a.query_name, ta, tb))
@@ -477,6 +486,9 @@ class QualityPart:
             if len(scores) > 1:
                 nt = True
             if tags:
+                if "PS" not in tags or "HP" not in tags:
+                    ctx.violation("quality:partial-tags", "read %s carries %r" % (r["name"], tags))
+                    continue
                 sid = tags["PS"]
                 if sid not in cands:
                     ctx.violation("quality:phase-set", "read %s tagged with PS %r, best scoring sets %r (scores %r)" % (r["name"], sid, cands, scores))
